@@ -254,7 +254,7 @@ class RenderNode(Node):
             template: Optional[BoundTemplate] = static_context.resolve(
                 self.name, token=self.token, default=None
             )
-            if template:
+            if isinstance(template, BoundTemplate):
                 yield from template.nodes
         elif include_partials:
             name = self.name.evaluate(static_context)
@@ -277,7 +277,7 @@ class RenderNode(Node):
             template: Optional[BoundTemplate] = static_context.resolve(
                 self.name, token=self.token, default=None
             )
-            if template:
+            if isinstance(template, BoundTemplate):
                 return template.nodes
         elif include_partials:
             name = await self.name.evaluate_async(static_context)
